@@ -258,6 +258,16 @@ func diff(src, dst *rib.RIB, explicitReplace map[spb.AFTType]bool, id *atomic.Ui
 
 	ops := NewReconcileOps()
 
+	// Network instances that exist only in the destination are considered as
+	// empty in the source, such that their contents are removed.
+	for dstNI := range dstContents {
+		if _, ok := srcContents[dstNI]; !ok {
+			e := &aft.RIB{}
+			e.GetOrCreateAfts()
+			srcContents[dstNI] = e
+		}
+	}
+
 	for srcNI, srcNIEntries := range srcContents {
 		dstNIEntries, ok := dstContents[srcNI]
 		if !ok {
